@@ -38,16 +38,20 @@ const (
 	kSeq
 	kClock
 	kConflict
-	kFid  // FEC sequence id (wraps at paws, a multiple of the group size)
-	kGid  // FEC group id = fid / group size
-	kPaws // the FEC wrap value
+	kFid    // FEC sequence id (wraps at paws, a multiple of the group size)
+	kGid    // FEC group id = fid / group size
+	kPaws   // the FEC wrap value
+	kFidRaw // a FEC id plus an offset, not yet reduced modulo paws
 )
 
 func (k kindT) String() string {
-	return [...]string{"plain", "seq", "clock", "mixed", "fecid", "fecgroup", "paws"}[k]
+	return [...]string{"plain", "seq", "clock", "mixed", "fecid", "fecgroup", "paws", "fecid+offset"}[k]
 }
 
 func joinKind(a, b kindT) kindT {
+	if (a == kFid && b == kFidRaw) || (a == kFidRaw && b == kFid) {
+		return kFidRaw
+	}
 	switch {
 	case a == kNone:
 		return b
@@ -225,12 +229,17 @@ func (kp *kindPass) runFunc(fn *ssa.Function) {
 				}
 			case *ssa.BinOp:
 				kx, ky := kp.val[i.X], kp.val[i.Y]
+				if i.Op == token.EQL || i.Op == token.NEQ || i.Op == token.SUB {
+					kx, ky = unraw(kx), unraw(ky)
+				}
 				switch i.Op {
 				case token.ADD:
 					if kx != kNone && ky != kNone {
 						kp.report(fn, i.Pos(), fmt.Sprintf("sum of a %s and a %s value", kx, ky), false)
+					} else if k := joinKind(kx, ky); k == kFid || k == kFidRaw {
+						kp.setVal(i, kFidRaw)
 					} else {
-						kp.setVal(i, joinKind(kx, ky))
+						kp.setVal(i, k)
 					}
 				case token.SUB:
 					if kx != kNone && ky != kNone {
@@ -246,7 +255,7 @@ func (kp *kindPass) runFunc(fn *ssa.Function) {
 					if kx != kNone && ky != kNone {
 						kp.report(fn, i.Pos(), "product of two wrap-around values", false)
 					} else if joinKind(kx, ky) == kGid {
-						kp.setVal(i, kFid) // group id scaled by the group size: back in the id space
+						kp.setVal(i, kFidRaw) // group id scaled by the group size: back in the id space
 					} else {
 						kp.setVal(i, joinKind(kx, ky))
 					}
@@ -266,7 +275,7 @@ func (kp *kindPass) runFunc(fn *ssa.Function) {
 					if kx == kPaws || (kx == kNone && ky == kPaws) {
 						break
 					}
-					if kx == kFid && i.Op == token.REM && ky == kPaws {
+					if (kx == kFid || kx == kFidRaw) && i.Op == token.REM && ky == kPaws {
 						kp.setVal(i, kFid) // reduction modulo the wrap value
 					} else if kx == kFid && i.Op == token.REM && ky == kNone {
 						kp.report(fn, i.Pos(), "position of a FEC id in its group (id % group size)", true)
@@ -306,6 +315,13 @@ func onlyStats(c *ssa.Convert) bool {
 		}
 	}
 	return true
+}
+
+func unraw(k kindT) kindT {
+	if k == kFidRaw {
+		return kFid
+	}
+	return k
 }
 
 func valueOf(in ssa.Instruction) ssa.Value {
@@ -348,7 +364,7 @@ func (kp *kindPass) call(fn *ssa.Function, c *ssa.Call, exempt bool) {
 		kp.setVal(c, k)
 	}
 	if ckey == "_itimediff" && len(cc.Args) == 2 {
-		ka, kb := kp.val[cc.Args[0]], kp.val[cc.Args[1]]
+		ka, kb := unraw(kp.val[cc.Args[0]]), unraw(kp.val[cc.Args[1]])
 		if ka != kNone || kb != kNone {
 			kp.report(fn, c.Pos(), fmt.Sprintf("_itimediff of a %s and a %s value", ka, kb), ka == kb || ka == kNone || kb == kNone)
 		}
@@ -365,7 +381,7 @@ func (kp *kindPass) call(fn *ssa.Function, c *ssa.Call, exempt bool) {
 			continue
 		}
 		pk := kp.spec.Local[kp.cellKey(callee, params[j].Name())]
-		ak := kp.val[args[j]]
+		ak := unraw(kp.val[args[j]])
 		if pk != kNone && ak != kNone {
 			kp.report(fn, c.Pos(), fmt.Sprintf("%s argument for %s parameter %s of %s", ak, pk, params[j].Name(), ckey), pk == ak)
 		} else if pk == kNone && ak != kNone {
